@@ -58,6 +58,7 @@ static struct answer hans[MAXANS]; static int nhans, hans_pos;
 static struct answer vans[MAXANS]; static int nvans, vans_pos;
 static int rd_ok, wr_ok; static long lk_ans, ul_ans;
 static int quiet;   /* suppress events (query sampling) */
+static int uns_v_pending; /* the unsolicited machine will make the first variable read callback of this call */
 static int depth;   /* nesting depth of API calls (0 = outer) */
 
 /* ---------- event buffer ---------- */
@@ -143,6 +144,26 @@ static void parse_answer(char *s, struct answer *a)
         }
 }
 
+static void before_service(void)
+{
+        uns_v_pending = obj.unsolicited_fsm.state == CAT_UNSOLICITED_STATE_FORMAT_READ_ARGS
+                && obj.unsolicited_fsm.var != NULL && obj.unsolicited_fsm.var->read != NULL;
+}
+
+#define MAXQ 4096
+static struct answer *hq[MAXQ]; static int hq_n, hq_pos;
+static struct answer *vq[MAXQ]; static int vq_n, vq_pos;
+static void queue_answers(char *list, int isv)
+{
+        char *save = NULL, *p = strtok_r(list, ",", &save);
+        while (p) {
+                struct answer *a = calloc(1, sizeof(*a));
+                parse_answer(p, a);
+                if (isv) { if (vq_n < MAXQ) vq[vq_n++] = a; } else { if (hq_n < MAXQ) hq[hq_n++] = a; }
+                p = strtok_r(NULL, ",", &save);
+        }
+}
+
 static void free_answers(void)
 {
         int i, j;
@@ -154,8 +175,28 @@ static void free_answers(void)
 static struct answer default_h = { 3, 0, {{0}} };
 static struct answer default_v = { 0, 0, {{0}} };
 
-static struct answer *next_h(void) { return (hans_pos < nhans) ? &hans[hans_pos++] : &default_h; }
-static struct answer *next_v(void) { return (vans_pos < nvans) ? &vans[vans_pos++] : &default_v; }
+/* persistent answer scripts (hq / vq records): consumed in invocation order across calls,
+ * used when the current operation carries no h= / v= list of its own */
+
+static struct answer *next_h(void)
+{
+        if (nhans > 0) return (hans_pos < nhans) ? &hans[hans_pos++] : &default_h;
+        if (hq_pos < hq_n) return hq[hq_pos++];
+        return &default_h;
+}
+static struct answer *next_v(void)
+{
+        if (nvans > 0) return (vans_pos < nvans) ? &vans[vans_pos++] : &default_v;
+        if (vq_pos < vq_n) return vq[vq_pos++];
+        return &default_v;
+}
+static void free_queues(void)
+{
+        int i, j;
+        for (i = 0; i < hq_n; i++) { for (j = 0; j < hq[i]->nact; j++) free(hq[i]->act[j].data); free(hq[i]); }
+        for (i = 0; i < vq_n; i++) { for (j = 0; j < vq[i]->nact; j++) free(vq[i]->act[j].data); free(vq[i]); }
+        hq_n = hq_pos = vq_n = vq_pos = 0;
+}
 
 /* perform the nested actions of an answer; edit applies to (data, data_size, max) when given */
 static void do_actions(struct answer *a, uint8_t *data, size_t *data_size, size_t max)
@@ -198,9 +239,25 @@ static void do_actions(struct answer *a, uint8_t *data, size_t *data_size, size_
 
 /* ---------- callbacks ---------- */
 
+/* attribution of an output byte (diagnostic peek into the public object): which machine is in
+ * FLUSH_IO_WRITE and which part of the unit it is writing (b=leading newline, m=payload,
+ * a=trailing newline, r=raw command-list line) */
+static void attribution(char *out)
+{
+        int c = obj.state == CAT_STATE_FLUSH_IO_WRITE, u = obj.unsolicited_fsm.state == CAT_UNSOLICITED_STATE_FLUSH_IO_WRITE;
+        int ws; const char *wb; const char *mainb;
+        out[0] = '?'; out[1] = '?'; out[2] = 0;
+        if (c == u) return;
+        if (c) { ws = obj.write_state; wb = obj.write_buf; mainb = (const char *)wbuf; out[0] = 'c'; }
+        else { ws = obj.unsolicited_fsm.write_state; wb = obj.unsolicited_fsm.write_buf; mainb = (const char *)(ubuf ? ubuf : wbuf + (buf_size >> 1)); out[0] = 'u'; }
+        out[1] = (ws == 0) ? 'b' : (ws == 1) ? 'm' : (wb == mainb) ? 'r' : 'a';
+}
+
 static int io_write(char ch)
 {
-        ev("W:%02x:%d", (unsigned)(uint8_t)ch, wr_ok);
+        char at[3];
+        attribution(at);
+        ev("W:%02x:%d:%s", (unsigned)(uint8_t)ch, wr_ok, at);
         return wr_ok ? 1 : 0;
 }
 
@@ -294,7 +351,7 @@ static int v_write(const struct cat_variable *var, const size_t write_size)
         struct answer *a = next_v();
         int c, i;
         var_id(var, &c, &i);
-        ev("V:%d:%d:w:%zu=%ld", c, i, write_size, a->ret);
+        ev("V:%d:%d:w:%zu:c=%ld", c, i, write_size, a->ret);
         do_actions(a, NULL, NULL, 0);
         return (int)a->ret;
 }
@@ -304,7 +361,8 @@ static int v_read(const struct cat_variable *var)
         struct answer *a = next_v();
         int c, i;
         var_id(var, &c, &i);
-        ev("V:%d:%d:r:0=%ld", c, i, a->ret);
+        ev("V:%d:%d:r:0:%c=%ld", c, i, uns_v_pending ? 'u' : 'c', a->ret);
+        uns_v_pending = 0;
         do_actions(a, NULL, NULL, 0);
         return (int)a->ret;
 }
@@ -328,6 +386,7 @@ static void scn_reset(void)
         free(grp_ptrs); grp_ptrs = NULL;
         free(wbuf); free(ubuf); wbuf = ubuf = NULL;
         free(inq); inq = NULL; inq_len = inq_pos = inq_cap = 0;
+        free_queues();
         nslots = ncmds = ngrps = 0; buf_size = 0; uns_size = -1; use_mutex = 0; inited = 0;
         memset(cmds, 0, sizeof(cmds)); memset(grps, 0, sizeof(grps));
 }
@@ -514,6 +573,9 @@ int main(void)
                 }
                 if (strcmp(tok[0], "init") == 0) { do_init(); continue; }
 
+                if (strcmp(tok[0], "hq") == 0) { queue_answers(tok[1], 0); continue; }
+                if (strcmp(tok[0], "vq") == 0) { queue_answers(tok[1], 1); continue; }
+
                 /* ---- operations ---- */
                 opno++;
                 snprintf(opname, sizeof(opname), "%ld", opno);
@@ -529,6 +591,7 @@ int main(void)
                         cat_status r;
                         rd_ok = atoi(tok[1]); wr_ok = atoi(tok[2]);
                         parse_opts(tok + 3, nt - 3);
+                        before_service();
                         r = cat_service(&obj);
                         emit(opname, (long)r);
                         continue;
@@ -542,6 +605,7 @@ int main(void)
                                 for (i = 0; i < no; i++) copy[i] = strdup(opts[i]);
                                 parse_opts(copy, no);
                                 for (i = 0; i < no; i++) free(copy[i]);
+                                before_service();
                                 r = cat_service(&obj);
                                 snprintf(opname, sizeof(opname), "%ld.%ld", opno, k);
                                 emit(opname, (long)r);
